@@ -18,7 +18,10 @@ RULE = ('Hypothesis-drawn (script, spec, -j 1, strategy, mutator subset - half o
         'files and identical sequences of written contents (digests incl. comments). '
         'A difference is classified: a run in which a fresh variable was introduced '
         '=> bucket fresh-name; anything else => other/<what differs>.  Non-trivial: '
-        '>= 2 accepted steps; distinct = distinct case.')
+        '>= 2 accepted steps; distinct = distinct case.  In addition, for typed scripts the '
+        'ordered list of all proposals of all mutators is computed in two fresh processes '
+        'with different PYTHONHASHSEED (same file => same node ids) and must be identical; '
+        'half of these inputs declare names colliding with this process\'s fresh names.')
 ASSUMPTIONS = [
     'the command is deterministic and depends on the token sequence only; its delays differ between the repetitions',
     'runs are cut by the launcher when they revisit a content (C03) - the sequences up to the cut are still compared',
@@ -37,6 +40,12 @@ def cases(draw):
         c['fresh_disabled'] = True
     else:
         c['fresh_disabled'] = False
+    if draw(st.integers(0, 3)) == 0:
+        # the input already declares names of the form x<k>__fresh with small k (it may be
+        # the output of an earlier ddSMT run): node ids of this run can collide with them
+        ks = draw(st.lists(st.integers(3, 150), min_size=3, max_size=12, unique=True))
+        c['text'] = ''.join(f'(declare-const x{k}__fresh Int)\n' for k in ks) + c['text']
+        c['preexisting_fresh'] = True
     c['slow_cc'] = False
     if draw(st.integers(0, 9)) == 0:
         # a cross-check command that is uniformly slow in one repetition and fast
@@ -92,7 +101,11 @@ def run_case(case, acc, wd):
         detail = (f'{what} differ between repetitions (hash seeds {case["hashseeds"]}): lengths '
                   f'{[len(x) for x in logs]}, first difference at accepted step {first + 1}; '
                   f'outputs: {[(o or "")[:160] for o in outs]}')
-        if fresh_used:
+        big = [m for o in outs for m in re.findall(r'x([0-9]+)__fresh', o or '') if int(m) >= 2**31]
+        if big:
+            # node ids are C ints: such a number is not a node id (known finding does not apply)
+            acc.violation('other/fresh-name-is-not-a-node-id', detail + f' numbers: {big[:3]}', case)
+        elif fresh_used:
             acc.violation('fresh-name', detail, case)
         else:
             acc.violation('other/' + what, detail, case)
@@ -102,7 +115,51 @@ def run_case(case, acc, wd):
     return nt, classes
 
 
+def proposal_lists(ctx, acc):
+    """Candidate order is defined by insertion / BFS order only: in two fresh processes
+    (same file, hence same node ids) with different PYTHONHASHSEED the ordered list of
+    all proposals of all mutators must be identical.  Here the known fresh-name finding
+    cannot interfere: there is no worker process that draws ids concurrently."""
+    import subprocess
+    from vlib import env, gen_typed, model
+    tool = os.path.join(env.VERIF, 'vlib', 'propdump.py')
+    os.makedirs(ctx.workdir, exist_ok=True)
+    n = [0]
+
+    def body(arg):
+        s, collide, seeds = arg
+        n[0] += 1
+        text = model.render_list(s.cmds) + '\n'
+        fn = os.path.join(ctx.workdir, f'pl{n[0]}.smt2')
+        with open(fn, 'w') as f:
+            f.write(text)
+        outs = []
+        for hs in ['0'] + [str(x) for x in seeds]:
+            p = subprocess.run([e2e.PY, tool, fn] + (['collide'] if collide else []), capture_output=True, timeout=600,
+                               env=dict(os.environ, PYTHONHASHSEED=hs, VERIF_REPO=env.REPO, PYTHONDONTWRITEBYTECODE='1'))
+            if p.returncode != 0:
+                raise RuntimeError('propdump failed: ' + p.stderr.decode()[-500:])
+            outs.append(p.stdout.decode())
+        os.unlink(fn)
+        case = dict(kind='proposal-list', text=text, collide=collide, seeds=seeds)
+        if len(set(outs)) > 1:
+            a, b = [o.split('\n') for o in outs if o != outs[0]][0], outs[0].split('\n')
+            i = next((k for k in range(min(len(a), len(b))) if a[k] != b[k]), min(len(a), len(b)))
+            acc.violation('other/proposal-list-depends-on-process',
+                          f'two fresh processes (PYTHONHASHSEED 0 vs {seeds}) enumerate different proposal lists '
+                          f'for the same file: first difference at proposal {i}: {b[i:i + 1]} vs {a[i:i + 1]}', case)
+        nprops = outs[0].count('\n')
+        acc.add_extra('proposal_lists_compared', 1)
+        acc.case(case, nontrivial=nprops >= 20, classes=['proposal-list'] + (['colliding-fresh-names'] if collide else []),
+                 sample=dict(kind='proposal-list', script=text[:300], proposals=nprops))
+
+    strat = st.tuples(gen_typed.script(dict(depth=2, max_asserts=2)), st.booleans(),
+                      st.lists(st.integers(1, 2**31), min_size=1, max_size=2))
+    runner.hyp_run(ctx, strat, body, ctx.share(48 if ctx.quick else 1500), salt=17)
+
+
 def shard(ctx, acc):
+    proposal_lists(ctx, acc)
     total = 64 if ctx.quick else 1200
     n = [0]
 
@@ -129,4 +186,19 @@ def finish(acc, tier):
 
 
 def replay(case, acc, ctx):
+    if case.get('kind') == 'proposal-list':
+        import subprocess
+        from vlib import env
+        os.makedirs(ctx.workdir, exist_ok=True)
+        fn = os.path.join(ctx.workdir, 'pl.smt2')
+        with open(fn, 'w') as f:
+            f.write(case['text'])
+        outs = []
+        for hs in ['0'] + [str(x) for x in case['seeds']]:
+            p = subprocess.run([e2e.PY, os.path.join(env.VERIF, 'vlib', 'propdump.py'), fn] + (['collide'] if case['collide'] else []),
+                               capture_output=True, timeout=600, env=dict(os.environ, PYTHONHASHSEED=hs, VERIF_REPO=env.REPO))
+            outs.append(p.stdout.decode())
+        if len(set(outs)) > 1:
+            acc.violation('other/proposal-list-depends-on-process', 'replayed: lists differ', case)
+        return
     run_case(case, acc, os.path.join(ctx.workdir, 'replay'))
